@@ -518,6 +518,19 @@ impl<'a> G<'a> {
             self.tag(if seg == "ds" { "ds_changed" } else { "other_segment_changed" });
             return;
         }
+        if self.cfg.feat.memops && self.cfg.feat.edges && self.r.chance(4) {
+            // segment * 16 + offset = exactly 0x100000, one below, one above
+            self.set_seg("ds", 0xFFFF);
+            let off = *self.r.pick(&[15u16, 16, 17]);
+            match self.r.below(4) {
+                0 => self.ins(&format!("mov byte [{}], al", off), "plain"),
+                1 => self.ins(&format!("mov word [{}], ax", off), "plain"),
+                2 => self.ins(&format!("mov al, byte [{}]", off), "plain"),
+                _ => self.ins(&format!("mov ax, word [{}]", off), "plain"),
+            }
+            self.tag("access_at_exactly_1mb");
+            return;
+        }
         let k = self.r.below(14);
         match k {
             0 => {
@@ -1045,7 +1058,7 @@ impl<'a> G<'a> {
             let at_top = self.lines.last().map(|l| l.text.to_ascii_lowercase().contains("set ") && (l.text.to_ascii_lowercase().contains("ff") || l.text.contains("655"))).unwrap_or(false);
             let (txt, word) = match if at_top { 7 + self.r.below(3) } else { self.r.below(7) } {
                 // right after a `set` to the top of memory: something long enough to cross 0xFFFFF
-                7 => (format!("db \"{}\"", self.r.pick(&["The quick brown fox jumps over it", "0123456789abcdef0123456789", "wrap around the end of memory!"])), false),
+                7 => (format!("db \"{}\"", self.r.pick(&["The quick brown fox jumps over it", "0123456789abcdef0123456789", "wrap around the end of memory!", "0123456789abcdef", "0123456789abcde"])), false),
                 8 => (format!("dw \"{}\"", self.r.pick(&["wide and long enough", "0123456789abcdefgh"])), true),
                 9 => (format!("db [{}, {}]", self.imm8(), 17 + self.r.below(40)), false),
                 0 => (format!("db {}", self.imm8()), false),
